@@ -72,7 +72,7 @@ func c05WhoDisables(w *World, r *Report) {
 	allowedA := w.Method("internal/util/cert", "ClientConfig", "GetTlsConfig")
 	allowedB := w.Method("internal/client/upstream", "InputOutput", "Connect")
 	n := 0
-	for fn := range allModuleFuncs(w, w.SSA()) {
+	for _, fn := range sortedModuleFuncs(w, w.SSA()) {
 		allInstrs(fn, func(in ssa.Instruction) {
 			st, ok := in.(*ssa.Store)
 			if !ok {
@@ -138,7 +138,7 @@ func c05WhoDisables(w *World, r *Report) {
 					return ok && g.Object() == hasTls
 				}
 				ncall, all := 0, true
-				for caller := range allModuleFuncs(w, w.SSA()) {
+				for _, caller := range sortedModuleFuncs(w, w.SSA()) {
 					for _, c2 := range callsIn(caller) {
 						if c2.Common().StaticCallee() != fn {
 							continue
@@ -446,7 +446,7 @@ func c05ServerName(w *World, r *Report) {
 	// (a) the ServerName store in package socketace
 	var hostField *types.Var
 	nstores := 0
-	for fn := range allModuleFuncs(w, w.SSA()) {
+	for _, fn := range sortedModuleFuncs(w, w.SSA()) {
 		allInstrs(fn, func(in ssa.Instruction) {
 			st, ok := in.(*ssa.Store)
 			if !ok {
@@ -574,7 +574,7 @@ func c05ConfigProvenance(w *World, r *Report) {
 					if fld := fieldVarOf(fa); fld != nil {
 						helperDepth++
 						nst, okAll, why := 0, true, ""
-						for g := range allModuleFuncs(w, w.SSA()) {
+						for _, g := range sortedModuleFuncs(w, w.SSA()) {
 							allInstrs(g, func(in ssa.Instruction) {
 								st, isSt := in.(*ssa.Store)
 								if !isSt {
@@ -664,7 +664,7 @@ func c05ConfigProvenance(w *World, r *Report) {
 				ncall := 0
 				if helperDepth < 3 {
 					helperDepth++
-					for caller := range allModuleFuncs(w, w.SSA()) {
+					for _, caller := range sortedModuleFuncs(w, w.SSA()) {
 						for _, c2 := range callsIn(caller) {
 							if c2.Common().StaticCallee() == pfn && pidx >= 0 && pidx < len(c2.Common().Args) {
 								ncall++
@@ -694,7 +694,7 @@ func c05ConfigProvenance(w *World, r *Report) {
 		}
 		return true, ""
 	}
-	for fn := range allModuleFuncs(w, w.SSA()) {
+	for _, fn := range sortedModuleFuncs(w, w.SSA()) {
 		if fn.Pkg != nil && fn.Pkg.Pkg.Path() == modPath+"/internal/util/cert" {
 			continue
 		}
@@ -1037,7 +1037,7 @@ func c05FreshConfig(w *World, r *Report, rule string) {
 	}
 	// is the result mutated by callers at all? (then freshness is required)
 	mutated := 0
-	for fn := range allModuleFuncs(w, w.SSA()) {
+	for _, fn := range sortedModuleFuncs(w, w.SSA()) {
 		if fn.Pkg != nil && fn.Pkg.Pkg.Path() == modPath+"/internal/util/cert" {
 			continue
 		}
@@ -1189,7 +1189,7 @@ func c05NoPlainAdmission(w *World, r *Report, rule8, rule11 string) {
 		return walk(v, 0)
 	}
 	reqFields := map[*types.Var]bool{}
-	for fn := range allModuleFuncs(w, w.SSA()) {
+	for _, fn := range sortedModuleFuncs(w, w.SSA()) {
 		allInstrs(fn, func(in ssa.Instruction) {
 			st, ok := in.(*ssa.Store)
 			if !ok {
@@ -1344,7 +1344,7 @@ func fieldOwnerNamed(n *types.Named, fv *types.Var) bool {
 func c05DialServerName(w *World, r *Report) {
 	serverName := tlsConfigField(w, "ServerName")
 	n := 0
-	for fn := range allModuleFuncs(w, w.SSA()) {
+	for _, fn := range sortedModuleFuncs(w, w.SSA()) {
 		for _, c := range callsIn(fn) {
 			f := sCallee(c)
 			var addrArg, cfg ssa.Value
@@ -1465,7 +1465,7 @@ func c05RoleConfig(w *World, r *Report) {
 	}
 	n := 0
 	var bad []string
-	for fn := range allModuleFuncs(w, w.SSA()) {
+	for _, fn := range sortedModuleFuncs(w, w.SSA()) {
 		f0 := fn
 		for f0.Parent() != nil {
 			f0 = f0.Parent()
@@ -1679,7 +1679,7 @@ func errKnownNil(st *pathState, call ssa.Instruction) bool {
 // (*url.URL).Hostname().
 func valueIsHostname(w *World, v ssa.Value) bool {
 	var cone []*ssa.Function
-	for f := range allModuleFuncs(w, w.SSA()) {
+	for _, f := range sortedModuleFuncs(w, w.SSA()) {
 		cone = append(cone, f)
 	}
 	sort.Slice(cone, func(i, j int) bool { return cone[i].Pos() < cone[j].Pos() })
